@@ -1,5 +1,7 @@
 #!/bin/bash
 # Build the verification harness from /repo's current working tree (tag verif, overlay of /verif/harness/inpkg).
+#   ./build_harness.sh        -> /verif/build/harness.test
+#   ./build_harness.sh race   -> /verif/build/harness_race.test (same sources, race detector on; engine soak)
 set -e
 mkdir -p /verif/build/tmp
 python3 - <<'PY'
@@ -10,5 +12,10 @@ for f in sorted(glob.glob('/verif/harness/inpkg/*.go')):
 json.dump(ov,open('/verif/build/overlay.json','w'),indent=1)
 PY
 cd /repo
-rm -f /verif/build/harness.test
-GOEXPERIMENT=synctest GOFLAGS=-mod=mod GOPROXY=off go test -c -tags verif -vet=off -overlay /verif/build/overlay.json -o /verif/build/harness.test ./internal/server
+if [ "$1" = "race" ]; then
+  rm -f /verif/build/harness_race.test
+  GOEXPERIMENT=synctest GOFLAGS=-mod=mod GOPROXY=off go test -c -race -tags verif -vet=off -overlay /verif/build/overlay.json -o /verif/build/harness_race.test ./internal/server
+else
+  rm -f /verif/build/harness.test
+  GOEXPERIMENT=synctest GOFLAGS=-mod=mod GOPROXY=off go test -c -tags verif -vet=off -overlay /verif/build/overlay.json -o /verif/build/harness.test ./internal/server
+fi
